@@ -468,6 +468,15 @@ func TestC04Reuse(t *testing.T) {
 		sc.earlier = nil
 		ds, f := runAndCompare(t, sc, rec)
 		nt := false
+		if f.O != nil && f.O.Wire != nil {
+			// the kernel may hand the second run the source port the first one has just released; to the same target
+			// and port the two runs are then one flow on the wire, which the world (and nobody else) can tell apart
+			sp := sinkProbes(f.O.Wire)
+			if a, b := sp[0], sp[sc.runIdx()]; sc.runIdx() > 0 && len(a) > 0 && len(b) > 0 && a[0].SPort == b[0].SPort && a[0].IP.Dst == b[0].IP.Dst && a[0].DPort == b[0].DPort && a[0].Kind != "icmp-echo" {
+				rec.Case(scenarioKey(sc), false, nil, "variant:"+sc.Variant, "other:kernel-reused-source-port")
+				return nil
+			}
+		}
 		if !f.Failed && (sc.ReuseFrom != sc.Target || sc.ReusePort != 0) {
 			for _, e := range f.O.Wire.Reads(sc.runIdx()) {
 				if e.Tag.IsDestForm {
